@@ -300,7 +300,7 @@ def new_result():
 
 
 def shards(tier, seed, scale=1.0):
-    nsh, per = {"quick": (32, 150), "thorough": (64, 1500)}[tier]
+    nsh, per = {"quick": (32, 150), "thorough": (256, 375)}[tier]
     per = max(1, int(per * scale))
     return [{"name": "tree-%d" % s, "seed": sub(seed, ID, s), "cases": per, "faults": s % 3 == 2, "wall_limit_s": WALL_S[tier]}
             for s in range(nsh)]
